@@ -296,7 +296,8 @@ class Expander:
             if k == "augstore":
                 v = T("binop", BINOPS.get(type(d.op), "?"), T("subscript", old, idx), v, src=src)
             if k == "viewstore":
-                idx = T("viewidx", d.via, idx)
+                vi = self._e(fi, cfg, d.view_index, d.node, env, stack2, depth + 1, d) if d.view_index is not None else T("const", None)
+                idx = T("viewidx", d.via, idx, vi)
             return T("where", idx, v, old, src=src)
         if k == "funcdef":
             f = self.P.fn_of_node.get(id(d.value))
@@ -524,9 +525,9 @@ class Expander:
 
         def s(x):
             if isinstance(x, T):
-                r = memo.get(id(x))
-                if r is not None:
-                    return r
+                hit = memo.get(id(x))
+                if hit is not None and hit[0] is x:
+                    return hit[1]
                 if x.op == "param" and x.args[0] == q and x.args[1] in binding:
                     r = binding[x.args[1]]
                 else:
@@ -535,7 +536,7 @@ class Expander:
                         r = x
                     else:
                         r = T(x.op, *na, src=x.src)
-                memo[id(x)] = r
+                memo[id(x)] = (x, r)
                 return r
             if isinstance(x, tuple):
                 return tuple(s(a) for a in x)
@@ -569,9 +570,10 @@ def deep_inline(X: "Expander", t: T, depth: int = 3, _memo=None) -> T:
                 return tuple(go(a, d) for a in x)
             return x
         k = (id(x), d)
-        if k in memo:
-            return memo[k]
-        memo[k] = x
+        hit = memo.get(k)
+        if hit is not None and hit[0] is x:
+            return hit[1]
+        memo[k] = (x, x)          # the tuple keeps x alive so that its id cannot be reused
         na = tuple(go(a, d) for a in x.args)
         y = x if all(a is b for a, b in zip(na, x.args)) else T(x.op, *na, src=x.src)
         if y.op == "call" and d > 0:
@@ -582,6 +584,35 @@ def deep_inline(X: "Expander", t: T, depth: int = 3, _memo=None) -> T:
                     y = T("inlined", f.args[0], go(r, d - 1), y, src=y.src)
                 except RecursionError:
                     pass
-        memo[k] = y
+        memo[k] = (x, y)
         return y
     return go(t, depth)
+
+
+def simplify(t: T, _memo=None) -> T:
+    """look through tuple projections of inlined multi-value returns: inlined(f, tuple(a, b, c), call)[1] -> b."""
+    memo = {} if _memo is None else _memo
+
+    def go(x):
+        if not isinstance(x, T):
+            if isinstance(x, tuple):
+                return tuple(go(a) for a in x)
+            return x
+        hit = memo.get(id(x))
+        if hit is not None and hit[0] is x:
+            return hit[1]
+        memo[id(x)] = (x, x)
+        na = tuple(go(a) for a in x.args)
+        y = x if all(a is b for a, b in zip(na, x.args)) else T(x.op, *na, src=x.src)
+        if y.op == "subscript" and y.args[1].op == "const" and isinstance(y.args[1].args[0], int):
+            base = y.args[0]
+            i = y.args[1].args[0]
+            if base.op == "inlined":
+                ret = base.args[1]
+                if ret.op == "tuple" and 0 <= i < len(ret.args[0]) and not any(e.op == "star" for e in ret.args[0]):
+                    y = T("proj", ret.args[0][i], base, i, src=y.src)
+            elif base.op == "tuple" and 0 <= i < len(base.args[0]):
+                y = base.args[0][i]
+        memo[id(x)] = (x, y)
+        return y
+    return go(t)
